@@ -28,8 +28,9 @@ type VerifMsg struct {
 // handler's answer (nil/None = "queued", like a forwarded request).
 type VerifCapture struct {
 	BuiltinEventEngine
-	Msgs   []*VerifMsg
-	Closed int
+	Msgs       []*VerifMsg
+	Closed     int
+	LocalFirst int // answer this many initial requests locally (their Msg objects get recycled)
 }
 
 func (h *VerifCapture) OnCReact(r *Msg, c CConn) ([]byte, Action) {
@@ -38,6 +39,10 @@ func (h *VerifCapture) OnCReact(r *Msg, c CConn) ([]byte, Action) {
 		m.Frags = append(m.Frags, VerifFrag{Slot: slot, Req: append([]byte{}, f.Req...), Key: f.Key})
 	}
 	h.Msgs = append(h.Msgs, m)
+	if h.LocalFirst > 0 {
+		h.LocalFirst--
+		return []byte("-ERR local\r\n"), None
+	}
 	return nil, None
 }
 
@@ -204,10 +209,23 @@ func verifDecodeWorld(limit int) (*VerifWorld, *VerifCapture, *VerifConn) {
 //   kind: 0 mget, 1 del, 2 mset ; k keys ; every key has L bytes, every value V bytes.
 // ---------------------------------------------------------------------------------------------
 
-func HarnessC06(kind, k, L, V int) {
+func HarnessC06(kind, k, L, V int) { verifC06(kind, k, L, V, 0) }
+
+// HarnessC06Warm: as HarnessC06, but the request object comes from the pool after it served a
+// wider request (a 7-key MGET) before: splitting must not depend on the object's history.
+func HarnessC06Warm(kind, k, L, V int) { verifC06(kind, k, L, V, 1) }
+
+func verifC06(kind, k, L, V, warm int) {
 	names := []string{"mget", "del", "mset"}
 	name := names[kind]
 	w, h, c := verifDecodeWorld(0)
+	if warm == 1 {
+		h.LocalFirst = 1
+		w.Feed(c, VerifEncode([]byte("mget"), []byte("{w}1"), []byte("{w}2"), []byte("{w}3"), []byte("{w}4"), []byte("{w}5"), []byte("{w}6"), []byte("{w}7")))
+		verifrt.Assert(len(h.Msgs) == 1, "warm_up_decoded")
+		h.Msgs = nil
+		w.Sent(c)
+	}
 	args := [][]byte{verifCaseMix("case", name)}
 	var keys, vals [][]byte
 	for i := 0; i < k; i++ {
@@ -289,6 +307,7 @@ var _ = hashkit.Hash
 
 func init() {
 	verifrt.Register("HarnessC06", func(p []int64) { HarnessC06(int(p[0]), int(p[1]), int(p[2]), int(p[3])) })
+	verifrt.Register("HarnessC06Warm", func(p []int64) { HarnessC06Warm(int(p[0]), int(p[1]), int(p[2]), int(p[3])) })
 }
 
 // VerifSpecHash is the key-slot specification with hashkit.Hash's signature; jobs that summarise
